@@ -233,6 +233,14 @@ def surface_cases(tier, rng, anc, dan):
     for x in anc[::3]:
         for y in anc[::4]:
             yield case_line('ar.opzdiffref', dtz_of_ns(x, rng.choice(OFFSETS)), dtz_of_ns(y, rng.choice(OFFSETS)))
+    # order of zone-aware values with different offsets: equal instants, neighbours, and pairs whose
+    # wall-clock order is the reverse of their instant order
+    for x in anc[::2]:
+        for (o1, o2) in ((0, 3600), (3600, 0), (-43200, 43200), (86399, -86399), (19800, -16200), (1, -1), (0, 0)):
+            for d in (0, 1, -1, G, -G, (o1 - o2) * G // 2, (o2 - o1) * G // 2, (o1 - o2) * G, (o1 - o2) * G - 1, (o1 - o2) * G + 1):
+                y = x + d
+                if NS_MIN <= y <= NS_MAX:
+                    yield case_line('ar.zord', dtz_of_ns(x, o1), dtz_of_ns(y, o2))
     tds = [0, 1, -1, DAYNS - 1, DAYNS, -DAYNS, -DAYNS + 1, 366 * DAYNS, -366 * DAYNS, 146097 * DAYNS, TD_MAX, TD_MIN]
     for dn in dan[::3] + [DN_MIN, DN_MAX]:
         extra = [(DN_MAX - dn) * DAYNS + e for e in (-1, 0, DAYNS - 1, DAYNS)] + [(DN_MIN - dn) * DAYNS + e for e in (-DAYNS, -DAYNS + 1, 0, 1)]
@@ -293,6 +301,12 @@ def surface_cases(tier, rng, anc, dan):
             op = rng.choice(['ar.noff', 'ar.opnoff', 'ar.opzoff'])
             a = dtz_of_ns(t, rng.choice(OFFSETS + [rng.randint(-86399, 86399)])) if op == 'ar.opzoff' else ndt_of_ns(t)
             yield case_line(op, a, rng.choice([1, -1]), off)
+        elif r < 0.77:
+            x = rand_ns(rng)
+            o1, o2 = rng.randint(-86399, 86399), rng.randint(-86399, 86399)
+            y = x + rng.choice([0, 1, -1, (o1 - o2) * G // 2, (o1 - o2) * G + rng.randint(-2, 2), rng.randint(-DAYNS, DAYNS)])
+            y = min(max(y, NS_MIN), NS_MAX)
+            yield case_line('ar.zord', dtz_of_ns(x, o1), dtz_of_ns(y, o2))
         elif r < 0.8:
             yield case_line('ar.opzdiffref', dtz_of_ns(rand_ns(rng), rng.randint(-86399, 86399)), dtz_of_ns(rand_ns(rng), rng.randint(-86399, 86399)))
         elif r < 0.88:
